@@ -218,7 +218,7 @@ def run(tier):
                    'string-reference family (tables crossing 24 entries, mixed byte/text strings, repeated occurrences); x routes per format '
                    '(DOM encode, streaming encoder, pack_strings); one trace line per (value, format, route); long-length family (spec/BinHeads.tla): '
                    'text string / byte string / array / map / member name of length n in {255, 256, 32767, 32768, 65535, 65536} (thorough + 127, 128, '
-                   '70000) x 4 formats x routes incl. undeclared-length streaming: the header and total size of the output must be one of the forms '
+                   '70000) (and an array of 400 / 1000 different strings of 100 bytes) x 4 formats x routes incl. undeclared-length streaming and encode_X to a std::ostream: the header and total size of the output must be one of the forms '
                    'the format allows for that length, and the library must read it back')
     cov['bounds'] = open(os.path.join(vf.SPEC, CFG[tier])).read().split('CONSTANTS')[1].split()
     cov['samples'] = [json.loads(x) for x in lines[:2]]
